@@ -421,3 +421,18 @@ add("C02",
             assert isinstance(pin, InnerPin) and pin.port == self, "All pins to remove must be InnerPins and belong to the port"
             self._remove_pin(pin)"""), "M9|spydrnet/ir/port.py:Port.remove_pins_from"),
 )
+
+# ---------------------------------------------------------------- spellings of a check (load-time normalisation)
+add("C01",
+    Mutant("twin: add_port guards through a _require(cond, msg) helper",
+           [(D, "class Definition(FirstClassElement):", "def _require(condition, message):\n    if not condition:\n        raise AssertionError(message)\n\n\nclass Definition(FirstClassElement):"),
+            (D, '        assert port.definition is None, "Port already belongs to a different definition"\n',
+             '        _require(port.definition is None, "Port already belongs to a different definition")\n')], None),
+    Mutant("twin: add_port guards with if / raise AssertionError",
+           (D, '        assert port.definition is None, "Port already belongs to a different definition"\n',
+            '        if port.definition is not None:\n            raise AssertionError("Port already belongs to a different definition")\n'), None),
+    Mutant("O2 the _require helper is called with the wrong condition",
+           [(D, "class Definition(FirstClassElement):", "def _require(condition, message):\n    if not condition:\n        raise AssertionError(message)\n\n\nclass Definition(FirstClassElement):"),
+            (D, '        assert port.definition is None, "Port already belongs to a different definition"\n',
+             '        _require(port is not None, "Port already belongs to a different definition")\n')], "Definition.add_port|definition-port|add-guard"),
+)
